@@ -48,6 +48,46 @@ var c05Sentinel = errors.New("c05 sentinel: instrumented helper failed")
 var c05SentinelU = &plush.ErrUnknownIdentifier{ID: "c05inner", Err: errors.New("c05 sentinel: unknown identifier inside the instrumented helper")}
 var c05WrappedU = fmt.Errorf("c05: instrumented helper failed in a nested lookup: %w", c05SentinelU)
 
+// the other kinds of value a Go error can be (the helper is declared to return `error`; what it returns is non-nil):
+// sentinel values of non-pointer types that happen to be the ZERO value of their type (an empty struct, the first
+// constant of an enumeration, an empty string, a struct whose fields are all unset, a nil slice), the same types
+// with a non-zero value, a pointer to a struct, an error that wraps another / joins several
+type c05ErrEmpty struct{}
+
+func (c05ErrEmpty) Error() string { return "c05: record not found" }
+
+type c05ErrCode int
+
+func (c c05ErrCode) Error() string { return "c05: failed with code " + strconv.Itoa(int(c)) }
+
+type c05ErrStr string
+
+func (s c05ErrStr) Error() string { return "c05: failed: " + string(s) }
+
+type c05ErrFields struct {
+	Op   string
+	Code int
+}
+
+func (e c05ErrFields) Error() string { return "c05: operation " + e.Op + " failed" }
+
+// not comparable: errors.Is finds it through Is
+type c05ErrList []string
+
+func (l c05ErrList) Error() string { return "c05: " + strconv.Itoa(len(l)) + " problems" }
+func (l c05ErrList) Is(target error) bool {
+	t, ok := target.(c05ErrList)
+	return ok && len(t) == len(l)
+}
+
+var c05ErrPtr = &c05ErrFields{Op: "c05-ptr", Code: 3}
+var c05ErrWrap = fmt.Errorf("c05: instrumented helper failed: %w", errors.New("c05: cause"))
+var c05ErrJoin = errors.Join(errors.New("c05: first problem"), errors.New("c05: second problem"))
+
+// c05Next: the name under which a case carries a SECOND template; it is rendered after the first one (if that one
+// succeeded without invoking the instrumented helper) on the same context: a view, then its layout
+const c05Next = "@next"
+
 // c05Rec records the error the instrumented helper returned (nil: it was not invoked)
 type c05Rec struct{ err error }
 
@@ -79,6 +119,9 @@ func (o *c05Obj) FailU() (string, error) { return o.rec.fail(c05WrappedU) }
 
 // FailO: a method that fails but hands back a usable value next to the error
 func (o *c05Obj) FailO() (*c05Obj, error) { return o, o.rec.note(c05Sentinel) }
+
+// FailZ: a method that fails with an error value that is the zero value of its type
+func (o *c05Obj) FailZ() (string, error) { return o.rec.fail(c05ErrCode(0)) }
 
 type c05It struct{ pos, end int }
 
@@ -144,6 +187,24 @@ func c05Env(partials map[string]string, rec *c05Rec) map[string]interface{} {
 			return template.HTML(b), rec.note(c05Sentinel)
 		},
 		"failUO": func() (*c05Obj, error) { return &c05Obj{Name: "c05-field", rec: rec}, rec.note(c05WrappedU) },
+		// failing helpers whose error is another kind of Go value (see c05ErrEmpty ...)
+		"failZ":  func() (string, error) { return rec.fail(c05ErrEmpty{}) },
+		"failC0": func() (string, error) { return rec.fail(c05ErrCode(0)) },
+		"failC7": func() (string, error) { return rec.fail(c05ErrCode(7)) },
+		"failS0": func() (string, error) { return rec.fail(c05ErrStr("")) },
+		"failSx": func() (string, error) { return rec.fail(c05ErrStr("c05-str")) },
+		"failF0": func() (string, error) { return rec.fail(c05ErrFields{}) },
+		"failFx": func() (string, error) { return rec.fail(c05ErrFields{Op: "c05-op", Code: 2}) },
+		"failL0": func() (string, error) { return rec.fail(c05ErrList(nil)) },
+		"failLx": func() (string, error) { return rec.fail(c05ErrList{"c05-a", "c05-b"}) },
+		"failP":  func() (string, error) { return rec.fail(c05ErrPtr) },
+		"failW":  func() (string, error) { return rec.fail(c05ErrWrap) },
+		"failJ":  func() (string, error) { return rec.fail(c05ErrJoin) },
+		"failEZ": func() error { return rec.note(c05ErrEmpty{}) },
+		"failVZ": func() (string, error) { return "c05-value-returned-with-the-error", rec.note(c05ErrCode(0)) },
+		"failZO": func() (*c05Obj, error) {
+			return &c05Obj{Name: "c05-field-of-the-value-returned-with-the-error", rec: rec}, rec.note(c05ErrEmpty{})
+		},
 		"partialFeeder": func(name string) (string, error) {
 			if p, ok := partials[name]; ok {
 				return p, nil
@@ -223,13 +284,26 @@ func c05ParseCase(s string) (c05Case, error) {
 // c05Run renders and returns the observation and the error the instrumented helper returned (nil: not invoked)
 func c05Run(tmpl string, partials map[string]string) (Obs, error) {
 	rec := &c05Rec{}
-	o := safeCall(3*time.Second, func() (string, error) {
-		return plush.Render(tmpl, plush.NewContextWith(c05Env(partials, rec)))
-	})
+	ctx := plush.NewContextWith(c05Env(partials, rec))
+	o := safeCall(3*time.Second, func() (string, error) { return plush.Render(tmpl, ctx) })
 	if o.Hang {
 		return o, nil // the render may still be running: do not read rec
 	}
-	return o, rec.err
+	next, two := partials[c05Next]
+	if !two || rec.err != nil || o.Kind() != "OK" {
+		return o, rec.err
+	}
+	// a second render on the same context (what the first one stored there — contentFor blocks, variables, functions —
+	// is still there): the observation is that of the first render that invoked the instrumented helper or did not
+	// succeed; if both succeed, the two outputs one after the other
+	o2 := safeCall(3*time.Second, func() (string, error) { return plush.Render(next, ctx) })
+	if o2.Hang {
+		return o2, nil
+	}
+	if o2.Kind() == "OK" {
+		o2.Out = o.Out + o2.Out
+	}
+	return o2, rec.err
 }
 
 var c05Tolerant = map[string]string{
@@ -285,6 +359,8 @@ type c05Oracle struct {
 	// set by base() for the variant under test: the site and the instrument, for shrinking
 	site  *c05Site
 	instr string
+	// replay of a recorded case: whether the position is evaluated is asked first (see c05Probe)
+	replay bool
 }
 
 // dup: the same (shrunk) case is reported once
@@ -543,8 +619,49 @@ func (c *c05Oracle) report(cs c05Case, kind string, o Obs) {
 		What: fmt.Sprintf("%s; got output %q, err=%v", c05Demand[cs.check], c05Short(o.Out), o.Err)})
 }
 
+// c05Probe: a case of a failing operation / unknown identifier with that instrument replaced by the failing helper — it
+// tells whether the position is evaluated at all (during generation the oracle knows; a replay asks). ok = the
+// instrument occurs exactly once in the case.
+func c05Probe(cs c05Case) (c05Case, bool) {
+	instrs := c05OpInstr
+	if cs.check == "unknown-must-fail" {
+		instrs = []string{"undef"}
+	}
+	found := ""
+	for _, in := range instrs {
+		n := strings.Count(cs.tmpl, in)
+		for _, body := range cs.partials {
+			n += strings.Count(body, in)
+		}
+		if n > 1 || (n == 1 && found != "") {
+			return cs, false
+		}
+		if n == 1 {
+			found = in
+		}
+	}
+	if found == "" {
+		return cs, false
+	}
+	probe := c05Case{check: "ran-implies-error", tmpl: strings.Replace(cs.tmpl, found, "fail()", 1), partials: map[string]string{}}
+	for k, body := range cs.partials {
+		probe.partials[k] = strings.Replace(body, found, "fail()", 1)
+	}
+	return probe, true
+}
+
 func (c *c05Oracle) runCase(cs c05Case) (invoked bool) {
 	rep := c.rep
+	if c.replay && (cs.check == "op-must-fail" || cs.check == "unknown-must-fail") {
+		if probe, ok := c05Probe(cs); ok {
+			if _, ran := c05Run(probe.tmpl, probe.partials); ran == nil {
+				rep.Count(cs.String(), false)
+				rep.Tag("replay: position not evaluated (the failing helper is not invoked there)")
+				rep.Notes = append(rep.Notes, "replay: the failing helper placed at the position of the instrument is not invoked: the position is not evaluated, the property demands nothing")
+				return
+			}
+		}
+	}
 	if cs.check == "unknown-tolerated-as-nil" {
 		ref, _ := c05Run(cs.ref, cs.partials)
 		if ref.Kind() != "OK" {
@@ -582,10 +699,13 @@ func (c *c05Oracle) runCase(cs c05Case) (invoked bool) {
 			return
 		}
 		invoked = true
-		if ran == c05Sentinel {
-			rep.Tag("helper-invoked")
-		} else {
+		if ue := (*plush.ErrUnknownIdentifier)(nil); errors.As(ran, &ue) {
 			rep.Tag("helper-invoked(error is/wraps an unknown-identifier error)")
+		} else {
+			rep.Tag("helper-invoked")
+		}
+		if _, two := cs.partials[c05Next]; two {
+			rep.Tag("helper-invoked(two renders on one context)")
 		}
 	case "op-must-fail":
 		rep.Tag("failing-operation")
@@ -679,6 +799,35 @@ func c05Mini() []*c05N {
 		stmt("<%= ", c05E("out", `contentOf("nd") { %>`, dflt(), "<% }"), " %>"),
 		stmt("<%= ", c05E("out", `contentOf("nd", `, data(), `) { %>`, dflt(), "<% }"), " %>"),
 	)
+	// multi-step positions: a contentFor block that a LATER contentFor of the same name follows (once, twice, inside a
+	// partial, by the iterations of a loop, in a branch) before contentOf renders what is stored; and histories of two
+	// renders on one context (a view that stores blocks / variables / functions, then the layout that uses them)
+	second := `<% contentFor("c") { %><i>second</i><% } %>`
+	next := func(parts ...interface{}) *c05N { return &c05N{ctx: "next-render", partial: c05Next, parts: parts} }
+	out = append(out,
+		stmt(cfDef(), second, `<aside><%= contentOf("c") %></aside>`),
+		stmt(cfDef(), second, `<%= contentOf("c", {"a": 1}) %>`),
+		stmt(cfDef(), second, `<%= contentOf("c") { %>d<% } %>`),
+		stmt(cfDef(), second, `<% let a = contentOf("c") %><%= a %>`),
+		stmt(cfDef(), second, second, `<%= contentOf("c") %>`),
+		stmt(`<% contentFor("c") { %>first<% } %>`, cfDef(), second, `<%= contentOf("c") %>`),
+		stmt(cfDef(), second, `<%= partial("pc") %>`, fixed("pc", `<i><%= contentOf("c") %></i>`)),
+		stmt(cfDef(), `<%= partial("pd") %><%= contentOf("c") %>`, fixed("pd", second)),
+		stmt(`<%= partial("pd") %>`, &c05N{partial: "pd", parts: []interface{}{cfDef()}}, second, `<%= contentOf("c") { %>d<% } %>`),
+		stmt(`<%= for (v) in xs { %>`, cfDef(), `<% } %><%= contentOf("c") { %>d<% } %>`),
+		stmt(`<%= for (v) in xs { %><% if (v == 1) { %>`, cfDef(), `<% } else { %>`+second+`<% } %><%= contentOf("c") { %>d<% } %><% } %>`),
+		stmt(`<% if (t) { %>`, cfDef(), `<% } %>`, second, `<%= contentOf("c") %>`),
+		stmt(cfDef(), `<%= blk() { %>`+second+`<% } %><%= contentOf("c") %>`),
+		stmt(cfDef(), next(`<html><%= contentOf("c") %></html>`)),
+		stmt(cfDef(), next(`<html><%= contentOf("c") { %>d<% } %></html>`)),
+		stmt(cfDef(), second, next(`<html><%= contentOf("c") %></html>`)),
+		stmt(cfDef(), next(second, `<html><%= contentOf("c") %></html>`)),
+		stmt(`<% contentFor("c") { %>first<% } %>`, next(cfDef(), `<%= contentOf("c") %>`)),
+		stmt(second, next(cfDef(), second, `<%= contentOf("c", {"a": 1}) %>`)),
+		stmt("<% let u = fn() { ", &c05N{ctx: "fn-body", code: true, parts: []interface{}{"return ", c05E("return-value", "s1")}}, " } %>", next(`<%= u() %>`)),
+		stmt("<% let a = ", c05E("let-value", "s1"), " %>", next(`<%= a %>`)),
+		stmt("<% let a = 1 %>", next("<%= ", c05E("out", "a"), " %>")),
+	)
 	// a helper that renders nested template code (partial / block helper / contentOf of a contentFor block) standing
 	// directly at each tolerant position: a failure inside it is a failed helper call
 	type nested struct {
@@ -727,6 +876,13 @@ func c05Mini() []*c05N {
 // The first two are the short ones: a violation that any helper shows is shrunk with one of them.
 var c05FailInstr = []string{"fail()", "o.Fail()", "failV()", "(failO().Name)", "failE()", "(failN().Name)", `failA(n1, "c05-arg")`,
 	`(failO().Echo("c05-echo"))`, "(o.FailO().Name)", "failB() { %>c05-block<% }", "(failO().Tags[0])", "(failN().Get(1))"}
+
+// the failing helper, for every kind of value the error it returns can be: zero values of non-pointer error types (empty
+// struct, int / string based type, struct with unset fields, nil slice with an Is method), also as the only result, from a
+// method, next to a usable value / object with something chained to the call; the same types holding a non-zero value; a
+// pointer to a struct; an error wrapping another; a joined error
+var c05FailKindInstr = []string{"failZ()", "failC0()", "failS0()", "failF0()", "failL0()", "failEZ()", "o.FailZ()", "failVZ()",
+	"(failZO().Name)", "failC7()", "failSx()", "failFx()", "failLx()", "failP()", "failW()", "failJ()"}
 
 // c05Shape: the instrument without its arguments / block, for the distribution counters
 func c05Shape(in string) string {
@@ -794,6 +950,18 @@ func (c *c05Oracle) base(root *c05N, idx int, mini bool) {
 				rep.Tag("helper shape " + c05Shape(in))
 			}
 		}
+		// (1c) the failing helper for the other kinds of value its error can be: all of them at every position of the minimal
+		// programs, one (rotating) at every other 2nd position of a random program
+		for k, in := range c05FailKindInstr {
+			if !mini && ((idx+si)%2 != 1 || k != (idx+si)/2%len(c05FailKindInstr)) {
+				continue
+			}
+			c.instr = in
+			t, p = variant(c.instr)
+			if c.runCase(c05Case{check: "ran-implies-error", tmpl: t, partials: p}) {
+				rep.Tag("error kind " + c05Shape(in))
+			}
+		}
 		// (1b) the failing helper whose error wraps / is an unknown-identifier error: at every position of the minimal
 		// programs; in random programs at every position at or below a tolerant frame and at every 4th other one
 		if mini || direct || above != "" || (idx+si)%4 == 0 {
@@ -829,13 +997,14 @@ func init() {
 	oracles["C05"] = func(cfg Config) []*Report {
 		rep := NewReport("C05", "C05", cfg)
 		c := &c05Oracle{rep: rep}
-		rep.Rule = "base programs: " + strconv.Itoa(len(c05Mini())) + " fixed minimal ones (one per operator x 4 surroundings, one per position class, partial with layout (failure in the partial / in the layout / one partial further down), a contentFor block rendered by a contentOf with a default block / data / both, in a silent tag, let value, condition, partial, layout, helper block or loop, after an earlier contentFor of the same name; default block and data of a contentOf of an undefined name; each tolerant position x {partial, block helper, contentOf of a contentFor block without / with a default block} standing directly there) + random well-formed programs that evaluate without error (text, output/silent tags, let/assign/index-write, if/else-if/else, for over slice/map/iterator/helper result with break/continue, block helpers incl. htmlEscape and contentOf's default block (name undefined / defined up front), contentFor+contentOf (plain / with data / with a default block), partial with data / with a layout partial / under a javascript content type, user fn definition+call, return; helpers that render nested code (partial, block helper + block, contentOf) also as operands: if/else-if condition, operand of ! == != && ||, array element, argument, printed value); for EVERY expression position of a base program (operand of each of the 13 binary operators and of !, condition, index/indexed value/assigned value, array/hash element, argument of Go/variadic/built-in/block helper, method or user function, let/assign/return value, loop iterable; inside branch, loop, helper block, contentFor block, partial, layout and fn bodies) one variant per instrument: failing helper (fail()/o.Fail() alternating), and where it ran: the failing helper in its other shapes (non-zero value next to the error, error as the only result, arguments, a block rendered before it fails, and a field / method / index access chained to the call on a usable object or a nil pointer: (failO().Name), (failN().Name), (failO().Echo(..)), (o.FailO().Name), (failO().Tags[0]), (failN().Get(1)); all shapes at every position of the minimal programs, one rotating shape at every 2nd position of a random one), a failing helper whose error wraps / is an unknown-identifier error (failU()/o.FailU()/failD()/(failUO().Name); every position at or below a tolerant frame, every 4th other one), a failing operation ((1 / 0) / xs[9] / (s1 - 1) / o.Nope) and an unknown identifier; non-trivial = the instrument was evaluated; distinct by case text"
+		rep.Rule = "base programs: " + strconv.Itoa(len(c05Mini())) + " fixed minimal ones (one per operator x 4 surroundings, one per position class, partial with layout (failure in the partial / in the layout / one partial further down), a contentFor block rendered by a contentOf with a default block / data / both, in a silent tag, let value, condition, partial, layout, helper block or loop, after an earlier contentFor of the same name; a contentFor block FOLLOWED by later contentFor(s) of the same name (once / twice / in a partial / by loop iterations / in a branch / in a helper block) before contentOf; histories of two renders on one context (case part @next: the view stores contentFor blocks / variables / functions, the second render uses them); default block and data of a contentOf of an undefined name; each tolerant position x {partial, block helper, contentOf of a contentFor block without / with a default block} standing directly there) + random well-formed programs that evaluate without error (text, output/silent tags, let/assign/index-write, if/else-if/else, for over slice/map/iterator/helper result with break/continue, block helpers incl. htmlEscape and contentOf's default block (name undefined / defined up front), contentFor+contentOf (plain / with data / with a default block; a third of them with one or two later contentFor of the same name), about every 8th program split into two renders on one context, partial with data / with a layout partial / under a javascript content type, user fn definition+call, return; helpers that render nested code (partial, block helper + block, contentOf) also as operands: if/else-if condition, operand of ! == != && ||, array element, argument, printed value); for EVERY expression position of a base program (operand of each of the 13 binary operators and of !, condition, index/indexed value/assigned value, array/hash element, argument of Go/variadic/built-in/block helper, method or user function, let/assign/return value, loop iterable; inside branch, loop, helper block, contentFor block, partial, layout and fn bodies) one variant per instrument: failing helper (fail()/o.Fail() alternating), and where it ran: the failing helper in its other shapes (non-zero value next to the error, error as the only result, arguments, a block rendered before it fails, and a field / method / index access chained to the call on a usable object or a nil pointer: (failO().Name), (failN().Name), (failO().Echo(..)), (o.FailO().Name), (failO().Tags[0]), (failN().Get(1)); all shapes at every position of the minimal programs, one rotating shape at every 2nd position of a random one), the failing helper for every kind of Go value its error can be (zero values of non-pointer error types: empty struct, int / string based, struct with unset fields, nil slice with an Is method — also as only result, from a method, next to a usable value / object with a chained access; the same types non-zero; pointer to struct; %w-wrapping error; errors.Join; all kinds at every position of the minimal programs, one rotating kind at every other 2nd position of a random one), a failing helper whose error wraps / is an unknown-identifier error (failU()/o.FailU()/failD()/(failUO().Name); every position at or below a tolerant frame, every 4th other one), a failing operation ((1 / 0) / xs[9] / (s1 - 1) / o.Nope) and an unknown identifier; non-trivial = the instrument was evaluated; distinct by case text"
 		if cfg.Arg != "" {
 			cs, err := c05ParseCase(cfg.Arg)
 			if err != nil {
 				rep.Notes = append(rep.Notes, "cannot parse replay case: "+err.Error())
 				return []*Report{rep}
 			}
+			c.replay = true
 			c.runCase(cs)
 			return []*Report{rep}
 		}
@@ -843,6 +1012,9 @@ func init() {
 			"short-circuit and untaken branches are respected: a position counts only if the instrumented helper actually ran there",
 			"an unknown identifier nested below (not directly at) a condition or an operand of ! == != && || — e.g. if (f(undef)) — is not checked either way: the statement does not say whether the tolerance reaches through intermediate frames",
 			"panics/hangs of a variant are C04's subject and are skipped here",
+			"a case with part:@next is a history of two renders on ONE context: tmpl first, then (if that succeeded without invoking the instrumented helper) the @next template; each Render is held to the statement on its own: the one during which the helper was invoked must return (\"\", err)",
+			"whatever non-nil value a helper returns as its error (declared result type error) is an error: zero values of struct / int / string / slice based error types included; typed nil pointers and helpers declared with a concrete error type are not exercised (the statement leaves open whether those have failed)",
+			"the replay of a failing-operation / unknown-identifier case first asks (failing helper at the instrument's place) whether the position is evaluated at all; if not, nothing is demanded",
 			"a helper that fails because the template code it renders (partial, block, contentFor block) uses an unknown identifier in a non-tolerated position is a failed helper call: Render must fail even when that helper call itself stands as a condition or operand of ! == != && ||",
 			"a helper that returns a usable value together with its error has failed all the same: whatever is chained to the call or done with the value, Render must fail with that error",
 			"a violation is reported on the innermost enclosing frame (instrument alone, expression, statement, block, partial body, whole program) that shows it when rendered on its own; the family id names the edge below that frame (which operand / condition / block lost the error); at most 12 violations per (check, kind, position role) and chunk are shrunk and listed")
